@@ -72,14 +72,27 @@ def refuted(name, st, model):
 
 # ------------------------------------------------------------------------------ constructors
 
-def ode_ctor(method):
-    name = f"C08/DataGeneratorODE.__post_init__/ensures.WF[method={method}]"
+ns_ = z3.Int("n_start")
+
+
+def rar_kw():
+    return {"start_iter": z3.Int("start_iter"), "update_every": z3.Int("update_every"),
+            "selected_sample_size_times": z3.Int("sel_t"), "selected_sample_size_omega": z3.Int("sel_x"),
+            "sample_size_times": z3.Int("S_t"), "sample_size_omega": z3.Int("S_x")}
+
+
+def ode_ctor(method, rar=False):
+    name = f"C08/DataGeneratorODE.__post_init__/ensures.WF[method={method}{',rar' if rar else ''}]"
     def run(seed):
         t0 = time.time()
         ex = Executor(SRC)
-        rec = ex.construct("DataGeneratorODE", [Key(), nt, tmin, tmax, bt, method], {}, [nt >= 1])
+        pre0 = [nt >= 1] + ([ns_ >= 1, ns_ <= nt] if rar else [])
+        kw = dict(rar_parameters=rar_kw(), nt_start=ns_) if rar else {}
+        rec = ex.construct("DataGeneratorODE", [Key(), nt, tmin, tmax, bt, method], kw, pre0)
         times = rec.fields["times"]
-        pre = [nt >= 1, bt >= 1, bt <= nt, k_ >= 0, k_ < nt] + BOX
+        # with RAR only n_start rows are in use at first, but *all* nt stored rows are points of the domain (the tail
+        # window of an epoch may reach beyond n_start)
+        pre = pre0 + [bt >= 1, bt <= nt, k_ >= 0, k_ < nt] + BOX
         goals = [("count", zint(times.shape[0]) == nt), ("rank", z3.BoolVal(len(times.shape) == 1)),
                  ("in_domain", z3.And(zreal(times.elem(k_)) >= tmin, zreal(times.elem(k_)) <= tmax)),
                  ("first_call_reshuffles", zint(rec.fields["curr_time_idx"]) == INT32_MAX - bt - 1)]
@@ -88,26 +101,32 @@ def ode_ctor(method):
                                     DG + "DataGeneratorODE.sample_in_time_domain", DG + "_check_and_set_rar_parameters"])
 
 
-def space_gen(ex, cls, dim, method, border, extra_pre):
+def space_gen(ex, cls, dim, method, border, extra_pre, rar=False):
     mins, maxs = (xmin, ymin)[:dim], (xmax, ymax)[:dim]
     kw = dict(key=Key(), n=n, nb=(2 * dim * nf if border else None), omega_batch_size=bx,
               omega_border_batch_size=(bb if border else None), dim=dim, min_pts=mins, max_pts=maxs, method=method)
+    if rar:
+        kw.update(rar_parameters=rar_kw(), n_start=ns_)
     if cls == "CubicMeshPDENonStatio":
         kw.update(temporal_batch_size=bt, tmin=tmin, tmax=tmax, nt=nt)
+        if rar:
+            kw.update(nt_start=z3.Int("nt_start"))
     if method == "grid" and dim == 2:
         ex.sqrt_of = [(n, s_)]
     return ex.construct(cls, [], kw, extra_pre)
 
 
-def space_ctor(cls, dim, method, border):
-    name = f"C08/{cls}.__post_init__/ensures.WF[dim={dim},method={method},border={int(border)}]"
+def space_ctor(cls, dim, method, border, rar=False):
+    name = f"C08/{cls}.__post_init__/ensures.WF[dim={dim},method={method},border={int(border)}{',rar' if rar else ''}]"
     def run(seed):
         t0 = time.time()
         ex = Executor(SRC)
         pre0 = [n >= 1, nt >= 1, nf >= 1, bb >= 1, bb <= nf, bx >= 1, bx <= n, bt >= 1, bt <= nt] + BOX
+        if rar:
+            pre0 += [ns_ >= 1, ns_ <= n, z3.Int("nt_start") >= 1, z3.Int("nt_start") <= nt]
         if method == "grid" and dim == 2:
             pre0 += [s_ >= 1, n == s_ * s_]
-        rec = space_gen(ex, cls, dim, method, border, pre0)
+        rec = space_gen(ex, cls, dim, method, border, pre0, rar)
         om = rec.fields["omega"]
         mins, maxs = (xmin, ymin)[:dim], (xmax, ymax)[:dim]
         pre = pre0 + [k_ >= 0, k_ < n, c_ >= 0, c_ < dim]
@@ -171,16 +190,21 @@ def ctor_rejects(what):
 
 # ------------------------------------------------------------------------------ batches
 
-def batch_shapes(cls, dim):
-    name = f"C08/{cls}.get_batch/ensures.declared_shapes_and_rows_in_domain[dim={dim}]"
+def batch_shapes(cls, dim, cartesian=True):
+    name = f"C08/{cls}.get_batch/ensures.declared_shapes_and_rows_in_domain[dim={dim}{'' if cartesian else ',cartesian_product=False'}]"
     def run(seed):
         t0 = time.time()
         ex = Executor(SRC)
         pre0 = [n >= 1, nt >= 1, nf >= 1, bb >= 1, bb <= nf, bx >= 1, bx <= n, bt >= 1, bt <= nt, n < 2 ** 30, nt < 2 ** 30, nf < 2 ** 28] + BOX
+        if not cartesian:
+            # rows are paired, not crossed: the three batch sizes coincide (precondition derived from the concatenations)
+            pre0 += [bt == bx] + ([bt == bb] if dim > 1 else [])
         if cls == "DataGeneratorODE":
             rec = ex.construct("DataGeneratorODE", [Key(), nt, tmin, tmax, bt, "uniform"], {}, pre0)
         else:
             rec = space_gen(ex, cls, dim, "uniform", True, pre0)
+            if not cartesian:
+                rec = rec.replace(cartesian_product=False)
         (o,) = ex.call_method(rec, "get_batch")
         new, batch = o.value
         r = z3.Int("r")
@@ -205,9 +229,27 @@ def batch_shapes(cls, dim):
                                                                              zreal(bd.elem(r, 1, 2)) == ymin, zreal(bd.elem(r, 1, 3)) == ymax)))]
         else:
             tx, tdx = batch.fields["times_x_inside_batch"], batch.fields["times_x_border_batch"]
-            goals += [("interior_shape", z3.And(zint(tx.shape[0]) == bt * bx, zint(tx.shape[1]) == 1 + dim)),
-                      ("border_shape", z3.And(zint(tdx.shape[0]) == bt * (1 if dim == 1 else bb), zint(tdx.shape[1]) == 1 + dim,
+            rows_in = bt * bx if cartesian else bt
+            rows_bd = (bt * (1 if dim == 1 else bb)) if (cartesian or dim == 1) else bt
+            goals += [("interior_shape", z3.And(zint(tx.shape[0]) == rows_in, zint(tx.shape[1]) == 1 + dim)),
+                      ("border_shape", z3.And(zint(tdx.shape[0]) == rows_bd, zint(tdx.shape[1]) == 1 + dim,
                                               zint(tdx.shape[2]) == 2 * dim))]
+            # content: column 0 is a time of the interval, the other columns a point of the box / of the facet
+            lo = xmin if dim == 1 else z3.If(c_ == 0, xmin, ymin)
+            hi = xmax if dim == 1 else z3.If(c_ == 0, xmax, ymax)
+            goals += [("interior_time_column_in_interval", z3.Implies(r < rows_in, z3.And(zreal(tx.elem(r, 0)) >= tmin, zreal(tx.elem(r, 0)) <= tmax))),
+                      ("interior_space_columns_in_box", z3.Implies(z3.And(r < rows_in, c_ < dim),
+                                                                   z3.And(zreal(tx.elem(r, 1 + c_)) >= lo, zreal(tx.elem(r, 1 + c_)) <= hi))),
+                      ("border_time_row_in_interval", z3.Implies(z3.And(r < rows_bd, f_ < 2 * dim),
+                                                                 z3.And(zreal(tdx.elem(r, 0, f_)) >= tmin, zreal(tdx.elem(r, 0, f_)) <= tmax)))]
+            if dim == 1:
+                goals += [("border_is_end_points", z3.Implies(r < rows_bd, z3.And(zreal(tdx.elem(r, 1, 0)) == xmin, zreal(tdx.elem(r, 1, 1)) == xmax)))]
+            else:
+                goals += [("border_rows_on_facets", z3.Implies(r < rows_bd, z3.And(
+                    zreal(tdx.elem(r, 1, 0)) == xmin, zreal(tdx.elem(r, 1, 1)) == xmax, zreal(tdx.elem(r, 2, 2)) == ymin, zreal(tdx.elem(r, 2, 3)) == ymax))),
+                          ("border_free_coordinates_in_range", z3.Implies(r < rows_bd, z3.And(
+                              zreal(tdx.elem(r, 2, 0)) >= ymin, zreal(tdx.elem(r, 2, 0)) <= ymax, zreal(tdx.elem(r, 2, 1)) >= ymin, zreal(tdx.elem(r, 2, 1)) <= ymax,
+                              zreal(tdx.elem(r, 1, 2)) >= xmin, zreal(tdx.elem(r, 1, 2)) <= xmax, zreal(tdx.elem(r, 1, 3)) >= xmin, zreal(tdx.elem(r, 1, 3)) <= xmax)))]
         # range instances of the uniform contract at every index the goals can touch (through the permutations)
         ax = []
         perms = getattr(ex, "perms", [])
@@ -310,6 +352,34 @@ def native_wf():
                     msgs.append(f"box {mn}-{mx}: border batch facet {ff} off its facet")
             if msgs:
                 return msgs[:3]
+        # paired (non cartesian) batches
+        g = CubicMeshPDENonStatio(key=jax.random.PRNGKey(3), n=12, nb=8, nt=6, omega_batch_size=2, omega_border_batch_size=2, temporal_batch_size=2,
+                                  dim=2, min_pts=mn, max_pts=mx, tmin=50.0, tmax=60.0, cartesian_product=False)
+        for call in range(3):
+            g, b_ = g.get_batch()
+            tdx, tx = np.asarray(b_.times_x_border_batch), np.asarray(b_.times_x_inside_batch)
+            if tx[:, 0].min() < 50.0 or tx[:, 0].max() > 60.0 or tdx[:, 0].min() < 50.0 or tdx[:, 0].max() > 60.0:
+                msgs.append(f"box {mn}-{mx}, cartesian_product=False: column 0 of a batch is not a time of [50, 60]: {tdx[:, 0].tolist()}")
+            for (cc, ff, bound) in want:
+                if not np.allclose(tdx[:, 1 + cc, ff], bound):
+                    msgs.append(f"box {mn}-{mx}, cartesian_product=False: border batch facet {ff} off its facet")
+            if msgs:
+                return msgs[:3]
+        # RAR: all stored rows are points of the domain and so is every batch, across epochs
+        rp = {"start_iter": 0, "update_every": 1, "sample_size_omega": 4, "selected_sample_size_omega": 1,
+              "sample_size_times": 4, "selected_sample_size_times": 1}
+        for dim, lo_, hi_ in ((2, mn, mx), (1, (mn[1] + 20.0,), (mx[1] + 20.0,))):
+            g = CubicMeshPDEStatio(key=jax.random.PRNGKey(4), n=10, nb=None, omega_batch_size=3, omega_border_batch_size=None, dim=dim, min_pts=lo_, max_pts=hi_,
+                                   rar_parameters=rp, n_start=5)
+            for call in range(6):
+                om = np.asarray(g.omega)
+                g, b_ = g.get_batch()
+                for arr_, what in ((om, "stored points"), (np.asarray(b_.inside_batch), f"batch of call {call}")):
+                    for cc in range(dim):
+                        if arr_[:, cc].min() < lo_[cc] or arr_[:, cc].max() > hi_[cc]:
+                            msgs.append(f"RAR generator (n=10, n_start=5, batch 3), box {lo_}-{hi_}: {what} leave the box: {arr_.tolist()}")
+                if msgs:
+                    return msgs[:3]
     return None
 
 
@@ -324,7 +394,7 @@ def native_ob():
 
 
 def obligations(tier):
-    obs = [ode_ctor("uniform"), ode_ctor("grid")]
+    obs = [ode_ctor("uniform"), ode_ctor("grid"), ode_ctor("uniform", rar=True), ode_ctor("grid", rar=True)]
     for cls in ("CubicMeshPDEStatio", "CubicMeshPDENonStatio"):
         for dim in (1, 2):
             for method in ("uniform", "grid"):
@@ -332,9 +402,12 @@ def obligations(tier):
                     if method == "grid" and border and cls == "CubicMeshPDENonStatio":
                         continue
                     obs.append(space_ctor(cls, dim, method, border))
+                if not (method == "grid" and dim == 2 and tier == "quick"):
+                    obs.append(space_ctor(cls, dim, method, False, rar=True))
     obs += [ctor_rejects("border_count_not_multiple_of_facets"), ctor_rejects("border_batch_larger_than_facet")]
     obs += [batch_shapes("DataGeneratorODE", 1), batch_shapes("CubicMeshPDEStatio", 1), batch_shapes("CubicMeshPDEStatio", 2),
-            batch_shapes("CubicMeshPDENonStatio", 1), batch_shapes("CubicMeshPDENonStatio", 2), wf_preserved()]
+            batch_shapes("CubicMeshPDENonStatio", 1), batch_shapes("CubicMeshPDENonStatio", 2),
+            batch_shapes("CubicMeshPDENonStatio", 1, cartesian=False), batch_shapes("CubicMeshPDENonStatio", 2, cartesian=False), wf_preserved()]
     # "every batch it ever returns": for ANY state satisfying the batching invariant the batch is a window of the store
     # (hence made of points of the domain / of border rows on their facets, by WF) — the C09 step contract, restated for C08
     from contracts import c09
